@@ -9,7 +9,7 @@ from ..guards import conv_guard_factory
 from ..resolve import Resolver, add_pywbem_dynamic, check_dynamic_idioms
 from ..ops import operations, OPS, ENVELOPES
 from ..cfg import stmt_facts, expr_guards
-from ..shapes import ParserShapes, TailInterp, show as show_shape
+from ..shapes import ParserShapes, TailInterp, AV, show as show_shape
 
 EXPLANATION = (
     "Error discipline of the reply path, decided by interprocedural "
@@ -29,13 +29,20 @@ EXPLANATION = (
     "operation has the (CIMXMLParseError, XMLParseError) handler that "
     "attaches request_data/response_data before the generic handler, and "
     "the envelopes assign _last_raw_reply before parsing, (R6) the parser "
-    "has no while loops (it recurses along the finite tuple tree only). "
+    "has no while loops (it recurses along the finite tuple tree only), "
+    "(R16) between each caller of parse_cim and the call cycles of the "
+    "parser a frame converts RecursionError, (R17) the tail of "
+    "_methodcall narrows METHODRESPONSE values before shape-dependent use. "
     "Findings are keyed by the origin site, with the entry points it "
     "reaches. Does not decide what requests/urllib3/xml.sax raise for "
     "arbitrary bytes, IndexError, or which pywbem error is chosen.")
 ASSUMPTIONS = [
-    "requests/urllib3 raise RequestException/HTTPError subclasses, xml.sax "
-    "raises SAXParseException (their documentation)",
+    "what the libraries below pywbem raise is a catalogue (escape.py, "
+    "STDLIB_RAISES), not analysed: xml.sax.parseString raises "
+    "SAXParseException, LookupError (unknown encoding), ValueError "
+    "(multi-byte encoding) or TypeError; session.post raises "
+    "RequestException / urllib3 HTTPError subclasses, or ValueError from "
+    "urllib.parse for the Location of a redirect it follows",
     "recorder/statistics/logging calls are judged by C19, not here",
     "argument-shape checks of the object model that depend on the *caller's* "
     "arguments are excluded by analysing only the post-transport phase",
@@ -1165,6 +1172,8 @@ def run(repo, rep, tier):
 
     _r2_shapes(repo, rep, ops, conn)
     object_model_handlers_catch_both(repo, rep, 'C02.R14')
+    recursion_depth_is_converted(repo, rep, 'C02.R16', (OPS,))
+    object_model_rejects_only_none(repo, rep, 'C02.R15')
     parsed_values_are_strings_where_used_as(repo, rep)
     _r4b_type_guard(repo, rep)
     _r2c_tag_confusion(repo, rep)
@@ -1272,6 +1281,7 @@ def _r2_shapes(repo, rep, ops, conn):
     if nops < 20:
         raise AnalysisError('only %d result-using operations interpreted'
                             % nops)
+    methodcall_reply_values_are_narrowed(repo, rep, ps, conn)
 
 
 def _r4b_type_guard(repo, rep):
@@ -1883,6 +1893,341 @@ def parsed_values_are_strings_where_used_as(repo, rep, rid='C02.R13'):
     if nf < 60:
         raise AnalysisError('%s: only %d parser functions scanned'
                             % (rid, nf))
+
+
+def falsy_guarded_raises(func_node, params):
+    """raise statements that run when a parameter is merely falsy
+    (`if not name: raise`): '' / 0 / [] / False are values the wire can
+    carry, unlike None which the parser's required attributes rule out"""
+    from ..cfg import GuardWalker
+    out = []
+    for st, (facts, _t) in stmt_facts(func_node).items():
+        if not isinstance(st, ast.Raise):
+            continue
+        atoms = [a for t0, p0 in facts for a in GuardWalker._atoms(t0, p0)]
+        for t, pol in atoms:
+            if isinstance(t, ast.Name) and t.id in params and not pol:
+                out.append((st, t.id))
+                break
+    return out
+
+
+def object_model_rejects_only_none(repo, rep, rid):
+    """The CIM-XML parser constructs several objects of the object model
+    outside any try block, with the comment that the constructor "cannot
+    possibly" fail for what the parser hands it: the required attributes
+    (check_node) rule out None, and the type checks concern objects the
+    parser built itself.  That argument covers `is None` and isinstance
+    guards - not a guard on mere falsiness: `if not name: raise
+    ValueError` is reached by NAME="" (a DTD-valid attribute value), and
+    through an unwrapped constructor call the ValueError leaves the parser
+    (the client operation raises ValueError, the listener drops the
+    connection).  So no raise in the classes of _cim_obj.py is guarded by
+    the bare falsiness of a parameter (zero sites on the reference tree;
+    positive and negative control)."""
+    r = rep.rule(rid, 'the object model rejects None, not falsy values '
+                 '(what unwrapped constructor calls of the parser rely on)')
+    obj = repo.module(OBJ)
+    n = 0
+    for c in obj.classes.values():
+        funcs = list(c.methods.values()) + list(
+            getattr(c, 'setters', {}).values())
+        for f in funcs:
+            n += 1
+            for st, pn in falsy_guarded_raises(f.node, set(f.params)):
+                r.ob(False, '%s|%s' % (f.qualname, pn))
+                rep.finding(r, f.qualname, norm(st, 60), 'falsy-rejected',
+                            OBJ, st.lineno,
+                            '%s raises when %s is merely falsy: an empty '
+                            'NAME / value attribute of a DTD-valid document '
+                            'reaches this through a constructor call the '
+                            'parser does not wrap, and the exception leaves '
+                            'the parser unconverted' % (f.qualname, pn))
+    r.sites += 1
+    r.ob(n > 200, 'functions-scanned', {'functions': n})
+    if n < 200:
+        raise AnalysisError('%s: only %d object-model functions scanned'
+                            % (rid, n))
+    pos = ast.parse('def f(self, name):\n    if not name:\n'
+                    '        raise ValueError("x")\n').body[0]
+    neg = ast.parse('def f(self, name):\n    if name is None:\n'
+                    '        raise ValueError("x")\n').body[0]
+    if len(falsy_guarded_raises(pos, {'name'})) != 1 or \
+            falsy_guarded_raises(neg, {'name'}):
+        raise AnalysisError('%s recogniser broken' % rid)
+
+
+def methodcall_reply_values_are_narrowed(repo, rep, ps, conn):
+    """C02.R17: the tail of _methodcall() walks the children of
+    METHODRESPONSE - (name, type, value) tuples from parse_returnvalue /
+    parse_paramvalue / parse_error.  The value of a PARAMVALUE can be None
+    (no child element), a list (VALUE.ARRAY / VALUE.REFARRAY), text, or one
+    of several object classes, whatever PARAMTYPE says; using it as an
+    object of one kind (`ref.namespace`) without an isinstance() test lets
+    AttributeError / TypeError escape for a DTD-valid reply.  Decided by
+    the same abstract interpretation as C02.R2, seeded with the shapes the
+    parser returns for the children of METHODRESPONSE."""
+    r = rep.rule('C02.R17', 'values of the METHODRESPONSE children are '
+                 'narrowed by isinstance before shape-dependent use')
+    f = conn.methods.get('_methodcall')
+    if f is None:
+        raise AnalysisError('WBEMConnection._methodcall vanished')
+    r.functions.add(f.fq)
+    shapes = ps.element_shapes('parse_methodresponse')
+    if not {'RETURNVALUE', 'PARAMVALUE'} <= set(shapes):
+        raise AnalysisError('parse_methodresponse: children not found (%s)'
+                            % sorted(shapes))
+    # the statement after which a local holds the METHODRESPONSE children:
+    # the first `x = x[2]` that follows the test of the element name
+    body = f.body
+    at = var = None
+    seen_test = False
+    for i, st in enumerate(body):
+        if isinstance(st, ast.If) and any(
+                const_str(c) == 'METHODRESPONSE' for c in ast.walk(st.test)):
+            seen_test = True
+        elif seen_test and isinstance(st, ast.Assign) and \
+                isinstance(st.targets[0], ast.Name) and \
+                isinstance(st.value, ast.Subscript) and \
+                norm(st.value.value) == st.targets[0].id and \
+                norm(st.value.slice) == '2':
+            at, var = i, st.targets[0].id
+            break
+    if at is None:
+        raise AnalysisError('_methodcall: the descent to the children of '
+                            'METHODRESPONSE was not found')
+    seen = set()
+
+    def report_use(func, node, what, bad, av, interp):
+        r.sites += 1
+        key = (norm(node, 70), what)
+        r.ob(not bad, '%s|%s' % key,
+             {'use': norm(node, 70), 'kind': what,
+              'shapes': sorted(show_shape(x) for x in av.shapes)[:8]})
+        if bad and key not in seen:
+            seen.add(key)
+            rep.finding(r, f.qualname, norm(node, 70), what, OPS,
+                        node.lineno,
+                        '%s of a METHODRESPONSE value that is not narrowed '
+                        'by isinstance: invalid for %s - a DTD-valid reply '
+                        '(NULL or array-valued PARAMVALUE, VALUE text) '
+                        'raises AttributeError/TypeError instead of a '
+                        'pywbem.Error'
+                        % (what, '; '.join(sorted(show_shape(b)
+                                                  for b in bad)[:5])))
+    ti = TailInterp(repo, ps, conn, report_use)
+    ch = set()
+    ti.by_shape = {}
+    for el, ss in shapes.items():
+        for sh in ss:
+            ch.add(sh)
+            ti.by_shape.setdefault(sh, set()).add(el)
+    ti.CH = frozenset(ch)
+    ti.block(body[at + 1:], {var: AV('elems', ti.CH, False,
+                                     origin='METHODRESPONSE children')}, f)
+    if ti.uses < 3:
+        raise AnalysisError('_methodcall: only %d uses of reply values '
+                            'interpreted' % ti.uses)
+
+
+def recursion_depth_is_converted(repo, rep, rid, files):
+    """C02.R16 / C17.R14: the tuple parser is a recursive descent over the
+    reply; how deep it recurses is decided by the sender (references nested
+    in keybindings, embedded objects, ...).  About 200 levels of
+    <VALUE.REFERENCE><INSTANCENAME><KEYBINDING> exhaust the interpreter's
+    recursion limit, and the RecursionError is none of the documented
+    errors.  So between every caller outside the parser and every call
+    cycle inside it there is a frame - itself outside the cycles - that
+    catches RecursionError (or a base class) and does not re-raise it.
+    The call graph is the resolved one (parse_any's getattr dispatch
+    included); cycles are its strongly connected components."""
+    r = rep.rule(rid, 'the recursion limit reached by a deeply nested '
+                 'message surfaces as a pywbem error')
+    res = Resolver(repo)
+    add_pywbem_dynamic(res, repo)
+    tp = repo.cls(TP, 'TupleParser')
+    entry = tp.methods.get('parse_cim')
+    if entry is None:
+        raise AnalysisError('TupleParser.parse_cim vanished')
+    CATCH = ('RecursionError', 'RuntimeError', 'Exception', 'BaseException')
+
+    def catching(h):
+        if h.type is None:
+            names = ['BaseException']
+        else:
+            ts = h.type.elts if isinstance(h.type, ast.Tuple) else [h.type]
+            names = [(dotted(t) or '').split('.')[-1] for t in ts]
+        if not set(names) & set(CATCH):
+            return False
+        # a handler that re-raises what it caught converts nothing
+        return not any(isinstance(x, ast.Raise) and x.exc is None
+                       for b in h.body for x in ast.walk(b))
+
+    def calls_of(f):
+        """(call, protected?) for the calls in f; protected = inside the
+        body of a try with a converting handler"""
+        out = []
+
+        def rec(stmts, prot):
+            for st in stmts:
+                if isinstance(st, (ast.FunctionDef, ast.ClassDef,
+                                   ast.AsyncFunctionDef)):
+                    continue
+                if isinstance(st, ast.Try):
+                    p2 = prot or any(catching(h) for h in st.handlers)
+                    rec(st.body, p2)
+                    for h in st.handlers:
+                        rec(h.body, prot)
+                    rec(st.orelse, prot)
+                    rec(st.finalbody, prot)
+                    continue
+                subs = []
+                for fld in ('body', 'orelse', 'finalbody'):
+                    sub = getattr(st, fld, None)
+                    if isinstance(sub, list) and sub and \
+                            isinstance(sub[0], ast.stmt):
+                        subs.append(sub)
+                if subs:
+                    # the header expressions of the compound statement
+                    for fld, v in ast.iter_fields(st):
+                        if isinstance(v, ast.expr):
+                            out.extend((c, prot) for c in ast.walk(v)
+                                       if isinstance(c, ast.Call))
+                        elif isinstance(v, list) and v and \
+                                isinstance(v[0], ast.withitem):
+                            for w in v:
+                                out.extend((c, prot) for c in ast.walk(w)
+                                           if isinstance(c, ast.Call))
+                    for sub in subs:
+                        rec(sub, prot)
+                else:
+                    out.extend((c, prot) for c in ast.walk(st)
+                               if isinstance(c, ast.Call))
+        rec(f.node.body, False)
+        return out
+
+    # resolved call graph below the entry
+    graph, order, todo = {}, [], [entry]
+    funcs = {}
+    while todo:
+        f = todo.pop()
+        if f.fq in graph:
+            continue
+        funcs[f.fq] = f
+        edges = []
+        for c, prot in calls_of(f):
+            tg, _kind = res.resolve(c, f)
+            for t in tg:
+                edges.append((t.fq, prot))
+                if t.fq not in graph:
+                    todo.append(t)
+        graph[f.fq] = edges
+        order.append(f.fq)
+    # strongly connected components (iterative Tarjan)
+    index, low, onst, stack, comp = {}, {}, set(), [], {}
+    counter = [0]
+    for root in order:
+        if root in index:
+            continue
+        work = [(root, iter([t for t, _p in graph[root]]))]
+        index[root] = low[root] = counter[0]
+        counter[0] += 1
+        stack.append(root)
+        onst.add(root)
+        while work:
+            v, it = work[-1]
+            adv = False
+            for w in it:
+                if w not in index:
+                    index[w] = low[w] = counter[0]
+                    counter[0] += 1
+                    stack.append(w)
+                    onst.add(w)
+                    work.append((w, iter([t for t, _p in graph[w]])))
+                    adv = True
+                    break
+                if w in onst:
+                    low[v] = min(low[v], index[w])
+            if adv:
+                continue
+            work.pop()
+            if work:
+                u = work[-1][0]
+                low[u] = min(low[u], low[v])
+            if low[v] == index[v]:
+                members = []
+                while True:
+                    w = stack.pop()
+                    onst.discard(w)
+                    members.append(w)
+                    if w == v:
+                        break
+                for w in members:
+                    comp[w] = members
+    rec_nodes = {v for v in graph if len(comp[v]) > 1 or
+                 any(t == v for t, _p in graph[v])}
+    r.notes.append('%d functions below TupleParser.parse_cim, %d of them on '
+                   'a call cycle (e.g. %s)'
+                   % (len(graph), len(rec_nodes),
+                      ', '.join(sorted(funcs[v].qualname
+                                       for v in rec_nodes)[:4])))
+    if len(graph) < 40:
+        raise AnalysisError('%s: only %d functions reached from parse_cim'
+                            % (rid, len(graph)))
+    memo = {}
+
+    def leaks(v, seen=(), first=False):
+        """an unprotected chain of calls leads from v into a cycle.  (The
+        activation of the entry that the outside caller creates is the
+        outermost parser frame whatever cycles the entry is on: a handler
+        there is above all recursion.)"""
+        if v in rec_nodes and not first:
+            return [v]
+        if v in memo:
+            return memo[v]
+        if v in seen:
+            return None
+        out = None
+        for t, prot in graph[v]:
+            if prot:
+                continue
+            sub = leaks(t, seen + (v,))
+            if sub:
+                out = [v] + sub
+                break
+        memo[v] = out
+        return out
+    nsites = 0
+    for rel in files:
+        for f in repo.module(rel).all_funcs():
+            for c, prot in calls_of(f):
+                if not (isinstance(c.func, ast.Attribute) and
+                        c.func.attr == 'parse_cim'):
+                    continue
+                nsites += 1
+                r.sites += 1
+                r.functions.add(f.fq)
+                chain = None if prot or not rec_nodes else \
+                    leaks(entry.fq, first=True)
+                r.ob(not chain, '%s|%s' % (f.qualname, norm(c, 50)),
+                     {'caller': f.qualname, 'cycles': len(rec_nodes),
+                      'protected_at_call': prot})
+                if chain:
+                    names = [funcs[v].qualname for v in chain]
+                    rep.finding(
+                        r, f.qualname, norm(c, 60), 'recursion-depth',
+                        f.file, c.lineno,
+                        'the parser recurses along the nesting of the '
+                        'message (%s is on a call cycle) and no frame '
+                        'between this call and the cycle catches '
+                        'RecursionError: a message nested about 200 levels '
+                        'deep raises RecursionError instead of a pywbem '
+                        'error' % names[-1],
+                        path=[f.qualname] + names,
+                        alt='cycle:' + names[-1], alt_func='*')
+    if nsites < 1:
+        raise AnalysisError('%s: no call of TupleParser.parse_cim found in '
+                            '%s' % (rid, ', '.join(files)))
 
 
 def object_model_handlers_catch_both(repo, rep, rid):
